@@ -49,7 +49,7 @@ func init() {
 			st.ps.LenientMIDOrder = true
 			hist := &byteHistory
 			unit.Each(func(b []byte) bool {
-				hist.begin(w, b, unit.Name)
+				b = hist.begin(w, b, unit.Name)
 				c13Check(w, st, b, unit.Name)
 				hist.end(histOK)
 				return !w.Expired()
